@@ -146,6 +146,57 @@ theorem packFlat_length (o : BitOrder) (xs r : List Nat) (h : packFlat o xs = .o
   · simp only [List.length_append, List.length_replicate]; omega
   · omega
 
+/-! ### unpack ∘ pack on bit lists -/
+
+theorem res_map_ok {α β} (x : Res α) (f : α → β) (y : β) (h : x.map f = .ok y) : ∃ b, x = .ok b ∧ f b = y := by
+  cases x with
+  | ok b => exact ⟨b, rfl, by simpa [Res.map] using h⟩
+  | err e => simp [Res.map] at h
+  | panic => simp [Res.map] at h
+
+theorem unpack_packGroup8 (o : BitOrder) (g : List Nat) (hg : g.length = 8) (hb : ∀ x ∈ g, x < 2) :
+    (packGroup o g).map (unpackByte o) = .ok g := by
+  match g, hg with
+  | [x0, x1, x2, x3, x4, x5, x6, x7], _ =>
+    exact unpackByte_packGroup o x0 (hb _ (by simp)) x1 (hb _ (by simp)) x2 (hb _ (by simp)) x3 (hb _ (by simp))
+      x4 (hb _ (by simp)) x5 (hb _ (by simp)) x6 (hb _ (by simp)) x7 (hb _ (by simp))
+
+theorem unpackFlat_packFlat_mul8 (o : BitOrder) : ∀ (k : Nat) (xs : List Nat), xs.length = 8 * k →
+    (∀ x ∈ xs, x < 2) → (packFlat o xs).map (unpackFlat o) = .ok xs
+  | 0, xs, hl, _ => by
+    have : xs = [] := List.eq_nil_of_length_eq_zero (by omega)
+    subst this; rw [packFlat_nil]; rfl
+  | k + 1, xs, hl, hb => by
+    have hsplit : xs = xs.take 8 ++ xs.drop 8 := (List.take_append_drop 8 xs).symm
+    have hg : (xs.take 8).length = 8 := by rw [List.length_take]; omega
+    have hr : (xs.drop 8).length = 8 * k := by rw [List.length_drop]; omega
+    obtain ⟨b, hb1, hb2⟩ := res_map_ok _ _ _ (unpack_packGroup8 o (xs.take 8) hg
+      (fun x hx => hb x (List.mem_of_mem_take hx)))
+    obtain ⟨bs, hbs1, hbs2⟩ := res_map_ok _ _ _ (unpackFlat_packFlat_mul8 o k (xs.drop 8) hr
+      (fun x hx => hb x (List.mem_of_mem_drop hx)))
+    rw [hsplit, packFlat_append8 o _ _ hg, hb1, hbs1]
+    simp only [Res.bind_ok, Res.map, unpackFlat_cons, hb2, hbs2]
+
+theorem pad8_bits (xs : List Nat) (hb : ∀ x ∈ xs, x < 2) : ∀ x ∈ pad8 xs, x < 2 := by
+  intro x hx
+  unfold pad8 at hx
+  split at hx
+  · rcases List.mem_append.1 hx with h | h
+    · exact hb x h
+    · have := (List.mem_replicate.1 h).2; omega
+  · exact hb x hx
+
+/-- **unpack ∘ pack = zero-padding** on lists of bits -/
+theorem unpackFlat_packFlat (o : BitOrder) (xs : List Nat) (hb : ∀ x ∈ xs, x < 2) :
+    (packFlat o xs).map (unpackFlat o) = .ok (pad8 xs) := by
+  have h1 : packFlat o xs = packFlat o (pad8 xs) := by unfold packFlat; simp only [pad8_idem]
+  rw [h1]
+  have hm := pad8_length_mod xs
+  exact unpackFlat_packFlat_mul8 o ((pad8 xs).length / 8) (pad8 xs) (by omega) (pad8_bits xs hb)
+
+theorem take_pad8 (xs : List Nat) : (pad8 xs).take xs.length = xs := by
+  unfold pad8; split <;> simp
+
 /-! ### values > 1 count as set bits -/
 
 def norm (i : Nat) : Nat := if i > 0 then 1 else 0
